@@ -179,8 +179,14 @@ func (d *Decoder) decodeSet(mem MemCache, msg *Message) error {
 		}
 	}
 
-	// the next set should be greater than 4 bytes otherwise that's padding
-	for err == nil && setHeader.Length > uint16(d.reader.ReadCount()-startCount) && d.reader.Len() > 4 && setHeader.Length-uint16(d.reader.ReadCount()-startCount) > 4 {
+	// What is left of a set and is shorter than the shortest record the set can hold is padding
+	// (RFC 7011 section 3.3.1): 5 octets for template records, the template's minimum record
+	// length for data records.
+	minLen := 5
+	if setHeader.SetID > 255 {
+		minLen = tr.minRecordLen()
+	}
+	for err == nil && setHeader.Length > uint16(d.reader.ReadCount()-startCount) && d.reader.Len() >= minLen && int(setHeader.Length-uint16(d.reader.ReadCount()-startCount)) >= minLen {
 		if setID := setHeader.SetID; setID == 2 || setID == 3 {
 			// Template record or template option record
 
@@ -486,6 +492,30 @@ func (tr *TemplateRecord) unmarshalOpts(r *reader.Reader) error {
 		tr.FieldSpecifiers = append(tr.FieldSpecifiers, tf)
 	}
 	return nil
+}
+
+// minRecordLen returns the length in octets of the shortest data record the template can
+// describe (at least 1): a variable-length field takes at least its one-octet length prefix.
+func (tr *TemplateRecord) minRecordLen() int {
+	n := 0
+	for _, f := range tr.ScopeFieldSpecifiers {
+		if f.Length == 65535 {
+			n++
+		} else {
+			n += int(f.Length)
+		}
+	}
+	for _, f := range tr.FieldSpecifiers {
+		if f.Length == 65535 {
+			n++
+		} else {
+			n += int(f.Length)
+		}
+	}
+	if n < 1 {
+		n = 1
+	}
+	return n
 }
 
 func (d *Decoder) getDataLength(fieldSpecifierLen uint16, t FieldType) (uint16, error) {
